@@ -309,6 +309,13 @@ const FIXED: &[(&str, &[&str], &str, bool, usize)] = &[
     ("(let $1 (add (var $1) 0) 2)", &["add-0", "let-const"], "manual", true, 2),
     ("(sum $1 (add (var $1) 0))", &["add-0", "sum-const"], "manual", false, 1),
     ("(add (var $2) (let $1 (mul (add (var $1) 0) (var $2)) (var $2)))", &["add-0", "mul-1", "let-const"], "runner", false, 2),
+    // one pass whose effects CANCEL in the sums of the progress measure and allocate no class: comm-add gives the class of x+y a
+    // symmetry (+1; its parent binds one of the two slots, so nothing is inherited), mul-1 unions two slot-free classes that have no constant (-1 live class, -1 symmetry): the pass has changed
+    // the e-graph, apply_rewrites must say so and no run may stop as saturated after it (seeded C15k)
+    ("(mul (sum $1 (sum $2 (add (var $1) (var $2)))) (mul (sum $3 (var $3)) 1))", &["comm-add", "mul-1"], "manual", false, 2),
+    ("(mul (sum $1 (sum $2 (add (var $1) (var $2)))) (mul (sum $3 (var $3)) 1))", &["comm-add", "mul-1"], "runner", false, 3),
+    ("(mul (sum $1 (sum $2 (add (var $1) (var $2)))) (mul (sum $3 (var $3)) 1))", &["mul-1", "comm-add"], "eqsat", false, 3),
+    ("(mul (sum $1 (sum $2 (mul (add (var $1) (var $2)) (var $1)))) (mul (sum $3 (var $3)) 1))", &["comm-add", "mul-1"], "runner", true, 3),
 ];
 
 /// fixed runs whose rules are written AFTER the start term is inserted, their explicit slots named like internal slots of
